@@ -13,9 +13,11 @@ Open Scope Z_scope.
    (fm_contract = wf_graph /\ rows_sorted /\ symmetric /\ no_self_loop /\ nonneg_edges /\ weights >= 0;
     the two-way input and the equal lengths are checked by the entry point itself.) *)
 
-(* the nine code fragments the model transcribes (cap test, min target weight, top-down bucket
-   scan, bad-move rule, cut update, gain update, rewind point, pass exit, cap formula) are still
-   what the translator finds in fiduccia_mattheyses.rs *)
+(* the twelve code fragments the model transcribes (cap test, min target weight, top-down bucket
+   scan, bad-move rule, cut update, gain update, rewind point, pass exit, cap formula; the cap is
+   bound once, in the weight type W, never rebound or converted, and compared in W with a target
+   part weight computed in W from part weights of type W) are still what the translator finds in
+   fiduccia_mattheyses.rs *)
 Theorem C07_source_shape : fm_source_shape = true.
 Proof. exact eq_refl. Qed.
 
